@@ -26,7 +26,7 @@ NOTES={
  "C20-F":"fifth round; first missed (no check looked at the ranges of a rename over LSP); caught since C20's rename sessions against the real server",
  "C20-G":"fifth round; first missed; caught since workspaces reached by deleting a module through the hooked document store",
  "C12-G":"fifth round; first missed; caught since a third of the writer's changes list files twice",
- "C10-F":"fifth round; NOT caught: the inference blow-up needs a type that shares a sub-type at 25+ levels, and hovering inside such a program legitimately prints a type of 2^depth leaves on the unchanged tree as well, so a sweep cannot tell the two apart within any budget (DESIGN 9.5)",
+ "C10-F":"fifth round; first missed; caught since the type-sharing ladders (depth 16-56, only queries whose answers are small) and the address-space limit on worker processes: the blow-up ends the worker by allocation failure, which is attributed to the ladder and confirmed alone",
 
  "C02-E":"fourth round; first missed (no enumeration context inside a variant's field list); caught since the context `type T { C( <tokens> ) }`",
  "C03-E":"fourth round; first missed (single-token edits cannot delete an argument together with its closing parenthesis); caught since the labelled-call victim and the deletion of every run of 2-3 adjacent tokens",
